@@ -240,6 +240,7 @@ type FuncCtx struct {
 	atMatched     map[int]int
 	curEnv        *Env
 	pendingSets   []int
+	wfSeen        map[string]bool
 	siteResults   map[string]TV
 	callSites     map[string]int
 }
@@ -993,6 +994,11 @@ func (fc *FuncCtx) enterLoop(li *loopInfo, b *ssa.BasicBlock, pre *State, reach 
 	for _, in := range b.Instrs {
 		if phi, ok := in.(*ssa.Phi); ok && phi.Comment == "rangeindex" {
 			fc.oblige(label+"/inv-entry", "rangeindex", reach, "(<= (- 1) "+entryPhi(phi).T+")", "range index starts at -1", nil)
+			if L := rangeBound(b, phi); L != nil {
+				if lv, ok := fc.val[L]; ok {
+					fc.oblige(label+"/inv-entry", "rangebound", reach, fmt.Sprintf("(<= (+ %s 1) %s)", entryPhi(phi).T, lv.T), "range index bounded by the length", nil)
+				}
+			}
 		}
 	}
 	{
@@ -1044,6 +1050,11 @@ func (fc *FuncCtx) enterLoop(li *loopInfo, b *ssa.BasicBlock, pre *State, reach 
 	for _, in := range b.Instrs {
 		if phi, ok := in.(*ssa.Phi); ok && phi.Comment == "rangeindex" {
 			q.assume("(<= (- 1) " + fc.val[phi].T + ")")
+			if L := rangeBound(b, phi); L != nil {
+				if lv, ok := fc.val[L]; ok {
+					q.assume(fmt.Sprintf("(<= (+ %s 1) %s)", fc.val[phi].T, lv.T))
+				}
+			}
 		}
 	}
 	env := fc.envFor(st, fc.loopNames(li, headPhi))
@@ -1115,6 +1126,11 @@ func (fc *FuncCtx) backEdge(li *loopInfo, p *ssa.BasicBlock, ec string, st *Stat
 	for _, in := range b.Instrs {
 		if phi, ok := in.(*ssa.Phi); ok && phi.Comment == "rangeindex" {
 			fc.oblige(label+"/inv-step", "rangeindex"+suffix, ec, "(<= (- 1) "+backPhi(phi).T+")", "range index stays >= -1", nil)
+			if L := rangeBound(b, phi); L != nil {
+				if lv, ok := fc.val[L]; ok {
+					fc.oblige(label+"/inv-step", "rangebound"+suffix, ec, fmt.Sprintf("(<= (+ %s 1) %s)", backPhi(phi).T, lv.T), "range index stays bounded by the length", nil)
+				}
+			}
 		}
 	}
 	for i, c := range lc.Invariants {
@@ -1146,6 +1162,22 @@ func (fc *FuncCtx) backEdge(li *loopInfo, p *ssa.BasicBlock, ec string, st *Stat
 		}
 		fc.oblige(label+"/variant", "missing"+suffix, ec, "false", "loop has no decreases clause: termination not shown", nil)
 	}
+}
+
+// rangeBound: for `t = phi + 1; if t < L` in a rangeindex loop head, the SSA value L.
+func rangeBound(b *ssa.BasicBlock, phi *ssa.Phi) ssa.Value {
+	var inc ssa.Value
+	for _, in := range b.Instrs {
+		if bo, ok := in.(*ssa.BinOp); ok {
+			if bo.Op == token.ADD && bo.X == phi {
+				inc = bo
+			}
+			if bo.Op == token.LSS && inc != nil && bo.X == inc {
+				return bo.Y
+			}
+		}
+	}
+	return nil
 }
 
 func (fc *FuncCtx) isRangeIndexLoop(li *loopInfo) bool {
